@@ -486,3 +486,5 @@ func diffEntry(g, w nbEntry) (field, gv, wv string) {
 }
 
 func TestC08(t *testing.T) { runProperty(t, "C08", genC08, runC08) }
+
+func init() { awkward = append(awkward, escapeLookalikes...) }
